@@ -834,6 +834,39 @@ class RefModel:
         self.last_flags = set(ctx.flags)
         return out, ctx.fragile
 
+    def nonsmooth_of_own_state(self, state, funcs=("floor", "Mod", "ceil", "ceiling")) -> bool:
+        """does d<state>_dt (through the intermediates it uses) apply floor / Mod to something that depends on the state itself?
+        (sympy's derivative of such a rate contains Derivative / Subs nodes that no printer knows)"""
+        seen = set()
+
+        def depends(node) -> bool:
+            if node[0] == "var":
+                if node[1] == state:
+                    return True
+                if node[1] in self.assigns and node[1] not in seen:
+                    seen.add(node[1])
+                    r = depends(self.assigns[node[1]].ast)
+                    seen.discard(node[1])
+                    return r
+                return False
+            return any(depends(c_) for c_ in _children(node))
+
+        visited = set()
+
+        def walk(node) -> bool:
+            if node[0] == "call" and node[1] in funcs and any(depends(a) for a in node[2]):
+                return True
+            if node[0] == "var" and node[1] in self.assigns and node[1] not in visited:
+                visited.add(node[1])
+                if walk(self.assigns[node[1]].ast):
+                    return True
+            return any(walk(c_) for c_ in _children(node))
+
+        try:
+            return walk(self.assigns[f"d{state}_dt"].ast)
+        except Exception:  # noqa: BLE001
+            return False
+
     def zero_power_base(self, name, t, states: dict, params: dict) -> bool:
         """does the expression of `name` (through the intermediates it uses) contain a power whose base evaluates to exactly 0 at this
         point?  (sympy differentiates b**e as b**e * (e' log b + e b'/b): 0 * inf at such a point)"""
